@@ -7,12 +7,11 @@ import json
 import os
 import vcheck as V
 
-# finding key -> generator option of harness/cmd/c09 that produces the shape (-probes)
+# finding key -> generator option of harness/cmd/c09 that produces the shape (-probes).
+# The shapes of the three repaired findings (two pending transactions sharing an input, a transaction
+# delivered after it was mined, coinbase deposits) are part of the ordinary generator.
 PROBES = {
-    "flag-lost:shared-input-key": "simul",
     "stale-pending:foreign-input": "foreign",
-    "coinbase-deposit-maturity": "cbgames",
-    "pending-while-mined": "mined",
 }
 
 
